@@ -301,7 +301,7 @@ def batteries_for(prop):
     if prop == 'C06':
         return [('wire-sweep', wire_sweep, H), ('header-sweep', header_sweep, H), ('clients', lambda: ioclient_batteries('C06'), H)]
     if prop == 'C07':
-        return [('wire-sweep', wire_sweep, H), ('reassembly-histories', reassembly_histories, H)]
+        return [('wire-sweep', wire_sweep, H), ('reassembly-histories', reassembly_histories, H), ('decoder-histories', lambda: decoder_batteries(prop), H)]
     if prop == 'C08':
         return [('dispatch', dispatch_battery, H)]
     if prop in ('C10', 'C11', 'C16'):
